@@ -383,6 +383,22 @@ def r_compile(ctx):
             good = not any(p in r0 for p in other + [inp]) and not any(p in r1 for p in other)
         ctx.check(good, 'R06.3', tag + '/clear-then-initialize-first', b, b.loc(0), '_compile runs _clear and _initialize before anything else on every path',
                   '_compile does not start with _clear(); _initialize(): state of a previous compilation can leak')
+        # ... and the public entry point cannot answer without compiling: every return of DecisionDiagram::compile passes through _compile
+        # (an early `Ok(..)` in the wrapper leaves the content of the PREVIOUS compilation behind the accessors), and answers with its result
+        wb = ctx.body(adt, 'compile', trait='DecisionDiagram')
+        wc = [wb.term_point(bb) for (bb, t) in wb.calls_to('_compile')]
+        good = bool(wc)
+        if good:
+            r0 = wb.reach([(0, 0)], avoid=wc)
+            good = not any(p in r0 for p in ret_points(wb))
+            for (edges_, blocks_, end_) in M.enumerate_paths(wb, (0, 0)):
+                rt_ = _path_ret(wb, blocks_, end_)
+                if rt_ is None:
+                    rets_ = wb.return_blocks()
+                    rt_ = wb.origin.place({'l': 0, 'p': []}, wb.term_point(rets_[0])) if rets_ else None
+                good = good and rt_ is not None and M.contains(rt_, lambda x: M.is_call(x, '_compile'))
+        ctx.check(good, 'R06.3', tag + '/compile-entry-always-compiles', wb, wb.loc(0), 'DecisionDiagram::compile returns the result of _compile on every path (no answer without clearing and rebuilding the diagram)',
+                  'DecisionDiagram::compile can return without running _compile: the accessors (best_value, best_solution, is_exact, cut-set) keep answering about the previous compilation')
         # result: Completion{is_exact: self.is_exact(), best_value: value_top of best_node}
         comp = aggr_assigns(b, 'common::Completion')
         for (bb, i, s) in comp:
@@ -704,9 +720,17 @@ def r_relax(ctx):
         ctx.check(bool(sr) and not any(p in r for p in ret_points(b)), 'R06.1', tag + '/merged-flagged-relaxed', b, b.loc(sr[0][0]) if sr else b.loc(mg[0][0]),
                   'the merged node (also a re-used kept node) is flagged relaxed on every path', 'the merged node is not flagged relaxed on every path: a re-used kept node stays "exact" although it now stands for merged states')
         # loop over the merged slice: delete + redirect every inbound arc
-        nx = [(bb, t) for (bb, t) in b.calls_to('Iterator::next') if M.contains(b.origin.operand(t['args'][0], b.term_point(bb)), lambda x: x == merge_t)]
+        nx_any = [(bb, t) for (bb, t) in b.calls_to('Iterator::next') if M.contains(b.origin.operand(t['args'][0], b.term_point(bb)), lambda x: x == merge_t)]
+        # ... over ALL of it: only element-preserving adaptors (iter, copied, ..) between the slice and the loop — skip / take / filter / rev-
+        # free; a member that is neither redirected nor kept is lost together with every completion through it
+        nx = [(bb, t) for (bb, t) in nx_any if strip_iter(b.origin.operand(t['args'][0], b.term_point(bb))) == merge_t]
+        if nx_any and not nx:
+            ctx.bad('R06.1', tag + '/loop-visits-whole-merged-slice', b, b.loc(nx_any[0][0]),
+                    'the delete-and-redirect loop does not range over the whole merged slice (%s): a merged member can be neither redirected into the merged node nor kept' % M.show(b.origin.operand(nx_any[0][1]['args'][0], b.term_point(nx_any[0][0])))[:160])
+            continue
         if not ctx.floor('R06.1', tag + '/loop', b, len(nx), 1, 'loop over the merged slice'):
             continue
+        ctx.ok('R06.1', tag + '/loop-visits-whole-merged-slice', b, b.loc(nx[0][0]), 'the delete-and-redirect loop ranges over the whole merged slice')
         nxt = b.origin.call(nx[0][1], b.term_point(nx[0][0]))
         item = id0(M.simplify_field(M.simplify_variant(nxt, 'Some'), '0', None))
         some_edge = [(tb, 0) for bb in b.live_blocks() if b.term(bb)['k'] == 'switch' for (tb, lab) in b.succ(bb)
@@ -1026,14 +1050,16 @@ def r_thresholds(ctx):
         if ctx.floor('R09.2', tag + '/update_threshold', mb, len(ut), 1, 'update_threshold call'):
             (bb, t) = ut[0]
             a = [mb.origin.operand(x, mb.term_point(bb)) for x in t['args']]
-            node = lambda x, f: M.is_field(x, f, '::Node') and M.is_param(x[1], index=0)
+            ni_ = param_index_by_type(mb, '::Node<')
+            node = lambda x, f: M.is_field(x, f, '::Node') and M.is_param(x[1], index=ni_) and x[1][1] == mb.name
             ok, cut, bad = M.guarded(mb, [mb.term_point(bb)], lambda atoms, lit: any(a_[0] == 'T' and M.is_call(a_[1], 'is_above_cutset') and node(a_[1][2][0], 'flags') for a_ in atoms))
             ctx.check(ok, 'R09.2', tag + '/only-above-cutset', mb, mb.loc(bb), 'only nodes at or above the cut-set are written to the cache', 'a node below the cut-set can be written to the cache')
             good = node(a[1], 'state') and node(a[2], 'depth') and M.is_field(a[3], '0') and a[3][1][0] == 'variant' and a[3][1][2] == 'Some' and node(a[3][1][1], 'theta') and \
                 isinstance(a[4], tuple) and a[4][0] == 'not' and M.is_call(a[4][1], 'is_cutset') and node(a[4][1][2][0], 'flags')
             ctx.check(good, 'R09.2', tag + '/cache-entry', mb, mb.loc(bb), 'cache entry = (state, depth, theta, explored = !is_cutset) of one node',
                       'update_threshold receives (%s)' % ', '.join(M.show(x) for x in a[1:]))
-            ctx.check(M.is_field(a[0], 'cache', 'CompilationInput'), 'R09.2', tag + '/cache-receiver', mb, mb.loc(bb), 'the cache written is input.cache', 'cache receiver is %s' % M.show(a[0]))
+            rcv_ = [a[0]] if not M.is_param(a[0]) else param_at_call_sites(ctx, mb, a[0])      # the cache may be handed down by the caller
+            ctx.check(bool(rcv_) and all(M.is_field(x, 'cache', 'CompilationInput') for x in rcv_), 'R09.2', tag + '/cache-receiver', mb, mb.loc(bb), 'the cache written is input.cache', 'cache receiver is %s' % M.show(a[0]))
 
 
 def _list_walk_child(parent, edge_term):
@@ -1145,6 +1171,8 @@ def r_filters(ctx):
             for (atoms_, rt_, blocks_, end_) in bool_fn_paths(c):
                 if M.is_const(rt_, True):
                     continue
+                if rt_ is not None and not M.is_const(rt_) and not M.consistent(list(atoms_) + M.lit_atoms(('F', rt_))):
+                    continue        # the path returns a boolean TERM that its own path condition makes true (`keep` after `if !keep {..}`)
                 npaths += 1
                 if not (flagp & set(blocks_)) or not (tw & set(blocks_)):
                     good = False
